@@ -424,6 +424,7 @@ COMMENT_TEXTS = ["note", "march 2020", "jan", "5 + 3", "* 2", "10 usd to try", "
                  # a comment that itself contains a '#', with a month name in front of it (the month parser scans the line up
                  # to the FIRST '#')
                  "paid in june # ref 7", "due in june = 30 # confirmed", "rate of mart = 1 # old", "# june # 5",
+                 "-" * 130 + " see ticket 5", "x" * 150 + " total 2021: 7", "note " * 40 + "+ 3",
                  "ödeme 3", "😀 x2", "ücret + 7", "½ * 2", "şubat ığüçö 10%", "τιμή 5", "€€€€ to try", "日本語 - 4", "ığüşöç 1k"]
 
 
